@@ -185,6 +185,11 @@ class World:
         self.crashed = False
         self.log = []
         self.decode_cache = {}
+        # measured (NumPy 2.5.3): ndarray.tofile swallows a refused / short write when the data fit the
+        # stdio buffer - no exception, the file simply ends up shorter than requested.  A harness that
+        # sets this (symbolic) flag lets every refused write be silent.
+        self.silent_refusal = False
+        self.filenos = {}
         d = self.root
         for p in [x for x in cwd.split('/') if x]:
             nd = Dir()
@@ -332,7 +337,12 @@ class SymFile:
 
     def fileno(self):
         self._chk()
-        return 3
+        n = 3 + len(_W.filenos)
+        for k, v in _W.filenos.items():
+            if v is self:
+                return k
+        _W.filenos[n] = self
+        return n
 
     def readable(self):
         return self.readable_flag
@@ -563,6 +573,9 @@ def _write_rows(f, arr):
         node.text = None
     f.pos = pos + allowed
     if fail is not None:
+        if isinstance(fail, OSError) and _W.silent_refusal:
+            f.pos = pos + total          # Python's notion of the position moves on; nothing is raised
+            return
         raise fail
 
 
@@ -844,6 +857,13 @@ replace = rename
 
 def fsync(fd):
     return None
+
+
+def fstat(fd):
+    f = _W.filenos.get(fd)
+    if f is None:
+        raise OSError(errno.EBADF, 'Bad file descriptor')
+    return StatResult(f.node.size(), False)
 
 
 def stat(p):
